@@ -202,8 +202,9 @@ type Driver struct {
 	subscriptions     map[int][][]byte
 	subscriptionsLock *sync.Mutex
 
-	errs chan error
-	done chan bool
+	errs      chan error
+	done      chan bool
+	closeOnce sync.Once
 }
 
 // Open opens the underlying generic.Driver, and by extension the channel.Channel and Transport
@@ -258,7 +259,9 @@ func (d *Driver) Close() error {
 
 	util.Yield("nc.close.done")
 
-	d.done <- true
+	// close (once) rather than send: the read loop may have exited already, may never have been
+	// started (failed open), or may be busy handing over an error -- a send would block forever.
+	d.closeOnce.Do(func() { close(d.done) })
 
 	util.Yield("nc.close.chan")
 
